@@ -160,7 +160,43 @@ func buildTarGz(ents []tarEnt) []byte {
 }
 
 // classify finds the first entry whose extraction changes something outside and says how.
+// lexicallyOutward: some symbolic link of the archive has a target that, resolved by name
+// alone against the link's own directory, lies outside the unpack directory (or is absolute
+// and outside it).  The unchanged code refuses such links; the known findings F3a / F3c are
+// about links that are each lexically inside.
+func lexicallyOutward(ents []tarEnt) bool {
+	for _, e := range ents {
+		if e.typ != 's' {
+			continue
+		}
+		if filepath.IsAbs(e.target) {
+			// absolute targets: inside only if they name a path beneath a directory called wd/…;
+			// the corpus marks inside ones with the ABSWD: prefix before substitution, so
+			// after substitution anything absolute whose cleaned form has no "/wd/" is outward
+			if !strings.Contains(filepath.Clean(e.target)+"/", "/wd/") {
+				return true
+			}
+			continue
+		}
+		rel := filepath.Clean(filepath.Join(filepath.Dir(e.name), e.target))
+		// entry names are relative to the archive root and start with the title directory
+		first := strings.SplitN(filepath.ToSlash(filepath.Clean(e.name)), "/", 2)[0]
+		if rel == ".." || strings.HasPrefix(rel, "../") || (rel != first && !strings.HasPrefix(rel, first+"/")) {
+			return true
+		}
+	}
+	return false
+}
+
 func classify(parent string, ents []tarEnt, named string) string {
+	w := classify0(parent, ents, named)
+	if (w == "named-through-archive-link" || w == "reg-through-archive-symlink") && lexicallyOutward(ents) {
+		return w + "-that-points-outward"
+	}
+	return w
+}
+
+func classify0(parent string, ents []tarEnt, named string) string {
 	for k := 1; k <= len(ents); k++ {
 		sb := newSandbox(parent, 900000+k)
 		res := runArchive(sb, ents[:k], "")
@@ -451,6 +487,12 @@ func runC11(seed int64, tier string, sc *Script) map[string]any {
 	runOne("name-abs-dotdot", []tarEnt{{'d', "d/d1/d2", ""}, {'s', "d/d1/d2/l", "../.."}, {'d', "ABSWD:d/d1/d2/l/../../planted", ""}}, "")
 	runOne("name-abs-dotdot", []tarEnt{{'r', "ABSWD:d/x/../y", ""}}, "")
 	runOne("name-abs-dotdot", []tarEnt{{'r', "ABSWD:d/../../victim", ""}}, "")
+	// an archive that is refused because of a symbolic link leading outside must not leave
+	// that link behind: a later push to the same path would be written through it
+	runOne("sym-rejected-then-named", []tarEnt{{'s', "d/l", "ABS-OUTSIDE"}}, "d/l")
+	runOne("sym-rejected-then-named", []tarEnt{{'s', "d/l", "../../../../outside/victim"}}, "d/l")
+	runOne("sym-rejected-then-named", []tarEnt{{'d', "d/s", ""}, {'s', "d/s/l", "../../../../../outside/victim"}}, "d/s/l")
+	runOne("sym-rejected-then-named", []tarEnt{{'r', "d/l", ""}, {'s', "d/l", "ABS-OUTSIDE"}}, "d/l")
 	archiveTitle = "."
 	runOne("sym-sibling-prefix", []tarEnt{{'s', "l", "../wd-backup/victim"}, {'r', "l", ""}}, "")
 	runOne("sym-sibling-prefix", []tarEnt{{'d', "s", ""}, {'s', "s/l", "../../wd-backup/victim"}, {'r', "s/l", ""}}, "")
